@@ -118,6 +118,25 @@ def _sweeten_op(model, cname, op, data):
             data = collections.OrderedDict(data)
             data[op[1]] = M.WORDS[v]
         return data
+    if k == 'map_to_seq' and isinstance(data, dict):
+        attr, key_attr, value_attr = op[1], op[2], op[3]
+        items = data.get(attr)
+        if not isinstance(items, dict):
+            return data
+        if value_attr is None and not all(
+                isinstance(x, dict) for x in items.values()):
+            return data
+        new = []
+        for key, x in items.items():
+            if isinstance(x, dict):
+                it = collections.OrderedDict(x)
+            else:
+                it = collections.OrderedDict([(value_attr, x)])
+            it[key_attr] = key
+            new.append(it)
+        data = collections.OrderedDict(data)
+        data[attr] = new
+        return data
     if k in ('seq_to_map', 'index_to_map') and isinstance(data, dict):
         attr, key_attr, value_attr = op[1], op[2], op[3]
         items = data.get(attr)
